@@ -62,6 +62,7 @@ type proc struct {
 	bc     *rotate.BootstrapContext
 	skc    *rotate.SigningKeyContext
 	wc     *rotate.WipeoutContext
+	serial *big.Int // the ONE number the kept process types its serial overrides into (refilled in place)
 }
 
 func (p *proc) wrapCA(ca styp.CertificateAuthority) styp.CertificateAuthority {
@@ -113,6 +114,12 @@ func (p *proc) run(cm *command) (err error) {
 	case opRotate:
 		s := p.skc
 		s.SigningKeyCommonName, s.SigningKeySerial, s.Now = cm.skc.SigningKeyCommonName, cm.skc.SigningKeySerial, cm.skc.Now
+		if p.kept && s.SigningKeySerial != nil && s.SigningKeySerial.Sign() != 0 {
+			if p.serial == nil {
+				p.serial = new(big.Int)
+			}
+			s.SigningKeySerial = p.serial.Set(s.SigningKeySerial) // the value handed to earlier commands changes under them
+		}
 		ctx := rotate.NewSigningKeyContext(p.base, s)
 		// what cmd.RotateCommand.InitContext does: no serial (nil) or 0 = the current key's serial + 1
 		if s.SigningKeySerial == nil || s.SigningKeySerial.Sign() == 0 {
@@ -223,7 +230,7 @@ func (b *baton) finish(me int) {
 
 // tally feeds the floors of the added families (one per shard run; histories of a pair update it concurrently).
 type tally struct {
-	keptProbes, boundaryDefaults, zeroSerial, shorter, maxChain, handoffs, meetings atomic.Int64
+	keptProbes, sweeps, zeroSerial, shorter, maxChain, handoffs, meetings atomic.Int64
 }
 
 type extra struct {
@@ -233,11 +240,14 @@ type extra struct {
 	bounds bool
 	forms  bool
 	chain  bool
+	sweep  bool // serials: every boundary serial in turn, each followed by a default rotation
+	swept  int
 	drill  bool // pair-baton: bootstrap first, then mostly rotations, so that both histories are often inside the same kind of command
 
 	longNames    bool   // the epoch's common names are long (a directed re-bootstrap then uses short ones, and vice versa)
 	forceDefault string // label of the boundary serial just planted: the next command is a default rotation
 	pending      string // label of the boundary serial the running command plants
+	bseq         int    // next boundary serial to plant
 	atTimeBound  string
 	rotations    int // successful rotations in the current epoch
 }
@@ -319,7 +329,7 @@ const (
 func (h *hist) xTime(step int) {
 	x := h.x
 	x.atTimeBound = ""
-	if x.chain {
+	if x.chain || x.sweep {
 		h.now = h.now.Add(time.Duration(1+h.r.IntN(90)) * day).Add(time.Duration(h.r.IntN(86400)) * time.Second).In(h.zone)
 		return
 	}
@@ -345,8 +355,10 @@ func (h *hist) xGen(step int, pre *authority.State) *command {
 	k := r.IntN(20)
 	op := opWipeout
 	switch {
-	case (x.chain || x.drill) && step == 0:
+	case (x.chain || x.drill || x.sweep) && step == 0:
 		op = opBootstrap
+	case x.sweep:
+		op = opRotate
 	case x.drill && !h.ep.active:
 		op, cm.overwrite = opBootstrap, true
 	case x.drill && k < 15:
@@ -361,6 +373,9 @@ func (h *hist) xGen(step int, pre *authority.State) *command {
 	if x.chain {
 		cm.keepGoing = false
 		cm.overwrite = step > 0 && r.IntN(3) == 0
+	}
+	if x.sweep {
+		cm.keepGoing, cm.overwrite = false, false
 	}
 	directed := x.bounds && op != opWipeout && h.ep.active && r.IntN(5) == 0
 	if directed {
@@ -378,6 +393,8 @@ func (h *hist) xGen(step int, pre *authority.State) *command {
 			return pick(r, longCNs)
 		case x.bounds:
 			return pick(r, shortCNs)
+		case x.sweep:
+			return fmt.Sprintf("signer-%d", step) // no two certificate objects of the sweep share a name
 		case x.forms && r.IntN(2) == 0:
 			return defSignCN
 		case r.IntN(4) == 0:
@@ -385,11 +402,16 @@ func (h *hist) xGen(step int, pre *authority.State) *command {
 		}
 		return "signingKeyCn"
 	}
+	sweepSerial := func(i int) *big.Int {
+		x.pending = boundSerials[i].label
+		return new(big.Int).Set(boundSerials[i].v)
+	}
 	bigSerial := func() *big.Int {
 		return new(big.Int).Add(new(big.Int).Lsh(big.NewInt(int64(1+r.IntN(1000))), uint(63+r.IntN(40))), big.NewInt(int64(r.IntN(1000))))
 	}
 	boundary := func() *big.Int {
-		b := boundSerials[r.IntN(len(boundSerials))]
+		b := boundSerials[x.bseq%len(boundSerials)] // in turn, so that a run plants every boundary
+		x.bseq++
 		x.pending = b.label
 		return new(big.Int).Set(b.v)
 	}
@@ -407,6 +429,9 @@ func (h *hist) xGen(step int, pre *authority.State) *command {
 		}
 		x.forceDefault = ""
 		switch s := r.IntN(6); {
+		case x.sweep:
+			bc.SigningKeySerial = sweepSerial(0)
+			cm.kind = "bootstrap(serial at a boundary)"
 		case x.bounds && s < 3:
 			bc.RootKeySerial, bc.SigningKeySerial = big.NewInt(int64(1+r.IntN(500))), boundary()
 			cm.kind = "bootstrap(serial at a boundary)"
@@ -444,6 +469,9 @@ func (h *hist) xGen(step int, pre *authority.State) *command {
 		switch s := r.IntN(12); {
 		case planted != "":
 			cm.kind = "rotate(default after serial " + planted + ")"
+		case x.sweep:
+			skc.SigningKeySerial = sweepSerial((step / 2) % len(boundSerials))
+			cm.kind = "rotate(serial-override at a boundary)"
 		case x.chain && s >= 2:
 		case x.bounds && s < 4:
 			skc.SigningKeySerial = boundary()
@@ -626,7 +654,9 @@ func (x *extra) evidence(h *hist, cm *command, before map[string][]byte, err err
 		c.Cell("bounds|%s|%s", cm.kind, ok)
 		if err == nil {
 			c.Count("bounds: default rotations judged right after a boundary serial", 1)
-			x.t.boundaryDefaults.Add(1)
+			if x.swept++; x.sweep && x.swept == len(boundSerials) {
+				x.t.sweeps.Add(1)
+			}
 		}
 	}
 	if cm.op == opRotate && cm.skc.SigningKeySerial != nil && cm.skc.SigningKeySerial.Sign() == 0 && err == nil {
@@ -809,19 +839,29 @@ func runExtra(c *core.Ctx, base int) int {
 		p := pairs[k%len(pairs)]
 		cli := p == cliPair && (k/len(pairs))%2 == 1
 		h, dir := newX(c, t, idx, r, "bounds", p, cli, !cli && (k/len(pairs))%3 == 2, nil)
-		h.x.bounds, h.x.forms, h.viaCLI = true, cli, cli
+		h.x.bounds, h.x.forms, h.viaCLI, h.x.bseq = true, cli, cli, 3*k
+		return h, dir
+	})
+	// serials: every boundary serial, each followed by a default rotation (library on memory, command line on disk; thorough: every assembly)
+	single(c.N(2, 12), 2*len(boundSerials), func(k int, r *rand.Rand) (*hist, string) {
+		p, cli := pairs[(k/2)%len(pairs)], false
+		if k%2 == 1 {
+			p, cli = cliPair, true
+		}
+		h, dir := newX(c, t, idx, r, "serials", p, cli, false, nil)
+		h.x.sweep, h.x.forms, h.viaCLI = true, cli, cli
 		return h, dir
 	})
 	// chain: more than ten rotations in one epoch
-	single(c.N(6, 12), c.N(12, 14), func(k int, r *rand.Rand) (*hist, string) {
-		h, dir := newX(c, t, idx, r, "chain", pairs[k%len(pairs)], false, (k/len(pairs))%2 == 1 || k%2 == 1, nil)
+	single(c.N(4, 12), c.N(12, 14), func(k int, r *rand.Rand) (*hist, string) {
+		h, dir := newX(c, t, idx, r, "chain", pairs[(2+k)%len(pairs)], false, k%2 == 1, nil)
 		h.x.chain = true
 		return h, dir
 	})
 	c.Floor("kept: the signer a process kept across its commands was probed", t.keptProbes.Load() > 0)
 	c.Floor("pair: two histories were handed over at component calls and built certificates in turn", t.handoffs.Load() > 0 && t.meetings.Load() > 0)
 	c.Floor("flags: a rotation with --rotated_key_serial_override=0 spelled out was judged as default", t.zeroSerial.Load() > 0)
-	c.Floor("bounds: a default rotation right after a boundary serial was judged", t.boundaryDefaults.Load() > 0)
+	c.Floor(fmt.Sprintf("serials: one history judged a default rotation right after each of the %d boundary serials", len(boundSerials)), t.sweeps.Load() > 0)
 	c.Floor("bounds: a stored object was replaced by shorter content", t.shorter.Load() > 0)
 	c.Floor("chain: an epoch with ten or more rotations", t.maxChain.Load() >= 10)
 	return total
